@@ -381,7 +381,7 @@ def run(ctx):
         for es in all_digraphs(n):
             cases.append({"stream": f"exhaustive_n{n}", "expr": ["model", list(range(n)), es],
                           "raw": [list(range(n)), [tuple(e) for e in es]]})
-    ctx.notes["exhaustive"] = f"all digraphs on <= {nmax} nodes"
+    ctx.notes["exhaustive_part"] = f"all digraphs on <= {nmax} nodes"
     for _ in range(ctx.n(200, 3000)):
         n = g.randint(5, 8)
         p = g.choice([0.1, 0.15, 0.25])
